@@ -154,7 +154,13 @@ VH_MAIN
         colptr[j] = nnz;
         for (i = 0; i < N; ++i) {
             Ad[i][j] = 0;
-            if (vh_pat_at(i, j)) { rowind[nnz] = i; aval[nnz] = vh_double(); Ad[i][j] = aval[nnz]; ++nnz; }
+            if (vh_pat_at(i, j)) { rowind[nnz] = i; aval[nnz] = vh_double();
+#ifdef VH_CONCRETE_MASK
+                /* larger shapes: most entries are pinned to fixed generic values (through an assumption, not a literal:
+                   cbmc would fold literal arithmetic in IEEE double), a few stay symbolic */
+                if ((VH_CONCRETE_MASK >> (i + j * N)) & 1UL) vh_assume(aval[nnz] == (double)(2 + ((i * 7 + j * 3) % 5)) + (double)(((i + 2) * (j + 3)) % 7 + 1) / 8.0 + (i == j ? 6.0 : 0.0));
+#endif
+                Ad[i][j] = aval[nnz]; ++nnz; }
         }
     }
     colptr[N] = nnz;
